@@ -577,8 +577,9 @@ META = {
 # ---- C19 units reused (added by main with pool.thread_func.bind): which GLOBAL worker number a pool's OS thread is started with.
 # ---- run() calls add_processing_unit_internal(core, thread_offset_ + core, ...) for every core; the std::thread runs
 # ---- thread_func(core, that global number).  Same templates and contracts as in specs/C19, run here as part of C15 as well.
-_c19 = {}
-exec(compile(open("/verif/specs/C19/spec.py").read(), "/verif/specs/C19/spec.py", "exec"), _c19)
+_c19 = {"UNITS": [], "VX_NO_REUSE": True}
+if not globals().get("VX_NO_REUSE"):     # reuse is never transitive: the other spec is loaded without ITS reuse blocks (no cycles)
+    exec(compile(open("/verif/specs/C19/spec.py").read(), "/verif/specs/C19/spec.py", "exec"), _c19)
 for _u in _c19["UNITS"]:
     if _u.name in ("more.add_pu_internal", "more.pool_run_startup"):
         _u.name = "c19." + _u.name
